@@ -2574,6 +2574,7 @@ static int next_token(struct scanner_s *scanner) {
                                  * always whitespace
                                  */
                                 scanner->next_char += 1;
+                                POSN_INCCOLUMN(scanner, 1);
                                 ttype = KEY;
                                 break;
                             }
@@ -2598,6 +2599,7 @@ static int next_token(struct scanner_s *scanner) {
                                 if (c == UCHAR_COLON) {
                                     /* Not diagnosed as an error _here_ */
                                     scanner->next_char += 1;
+                                    POSN_INCCOLUMN(scanner, 1);
                                     ttype = TKEY;
                                 }
                             } else if (result == CIF_EOF) {
